@@ -427,7 +427,7 @@ def run(tier, seed):
     bounds = {}
     caps = []
     plan = {"quick": {"Sampler": 3, "QuickSampler": 4, "Analyzer": 6},
-            "thorough": {"Sampler": 20, "QuickSampler": 20, "Analyzer": 20}}[tier]
+            "thorough": {"Sampler": 5, "QuickSampler": 10, "Analyzer": 20}}[tier]
     for kind, md in plan.items():
         a, n, closed, d, na = explore(kind, env, tier, md)
         acc.merge(a)
